@@ -240,6 +240,16 @@ Section CellP.
   Qed.
 End CellP.
 
+(* a bag of cells with any number of roots other than one (zero included) is an
+   error, not an index panic *)
+Lemma parse_cell_root_count {cell : Type} (deser : list N -> res (list cell)) p bs cs :
+  hex_decode (trim_quotes p) = Some bs -> deser bs = Ok cs -> length cs <> 1%nat ->
+  parse_cell deser p = Err EOther.
+Proof.
+  intros Hh Hd Hn. unfold parse_cell. rewrite Hh, Hd. cbn [bind].
+  destruct (len_is 1 cs) eqn:E; [apply len_is_spec in E; contradiction|reflexivity].
+Qed.
+
 (** * ton.Bits256 and tl.Int256 *)
 Lemma ton_bits256_roundtrip bs : bytes_ok bs -> length bs = 32%nat ->
   parse_ton_bits256 (print_bytes_hex bs) = Ok bs.
